@@ -3,6 +3,7 @@ package world
 import (
 	"bytes"
 	"fmt"
+	"time"
 
 	"go.sia.tech/core/consensus"
 	"go.sia.tech/core/gateway"
@@ -319,8 +320,35 @@ func init() {
 			w.violate("C10", "deep-policy-accepted", fmt.Sprintf("a policy nested %d thresholds deep (each nested as child %d of %d) was decoded without error: the decoder's recursion is not bounded by its nesting limit of 32", depth, pos+1, width))
 			return
 		}
+		// built in memory (or parsed from text, where nothing limits nesting): Verify's
+		// own bound on the number of sub-policies must stop a long chain of
+		// single-branch thresholds
+		w.deepChainVerify("C10")
 		w.stats.Inc("probe.Z4-deep-policy")
 		w.stats.Inc("probe.crash")
 		w.stats.Inc("probe.rows-run")
 	}})
+}
+
+// deepChainVerify: chains of 1-of-1 thresholds around a satisfiable or an
+// unsatisfiable leaf. The reference evaluator counts sub-policies as the
+// protocol does (at most 1024 in total).
+func (w *World) deepChainVerify(prop string) {
+	t := w.tape
+	depth := pick(t, 1, 32, 1000, 1023, 1024, 1025, 1026, 2048, 5000)
+	leaf := pick(t, types.PolicyAbove(0), types.PolicyAbove(^uint64(0)), types.AnyoneCanSpend())
+	p := leaf
+	for i := 0; i < depth; i++ {
+		p = types.PolicyThreshold(1, []types.SpendPolicy{p})
+	}
+	var verr error
+	if pn := guard(func() { verr = p.Verify(10, time.Unix(1e9, 0), types.Hash256{}, nil, nil) }); pn != "" {
+		w.violate(prop, "policy-verify-panic", fmt.Sprintf("Verify of a chain of %d single-branch thresholds panicked: %s", depth, pn))
+		return
+	}
+	if want := ref.PolicySatisfied(p, 10, time.Unix(1e9, 0), types.Hash256{}, nil, nil); (verr == nil) != want {
+		w.violate(prop, "deep-chain-verify", fmt.Sprintf("Verify of a chain of %d single-branch thresholds around %v returned %v; counting sub-policies as the protocol does (at most 1024 in all) gives satisfied=%v", depth, leaf, verr, want))
+		return
+	}
+	w.stats.Inc("probe.deep-chain-verify")
 }
